@@ -5,6 +5,7 @@ CONSTANTS
   GasClasses = {"zero", "small", "exact", "enough"}
   Roles = {"owner", "other", "voter"}
   MaxDev = 1
+  Deep = FALSE
   WalkLen = 24
   ExportOn = TRUE
 INIT Init
